@@ -24,11 +24,14 @@ func c07Patch(g *GcsEmu, conds cloudstorage.Conditions, ctype string) int {
 func H_C07_writers() {
 	g := vNewEmu()
 	n := vBound("writers", 2, 3)
-	kind := vChoice("kind", 0, 5)
+	kind := vChoice("kind", 0, 6)
 	var base *storage.Object
 	if kind == 5 {
 		n = 2
 		vPut(g, "b", "src", []byte("S"))
+	}
+	if kind == 6 {
+		n = 2
 	}
 	if kind != 1 && kind != 5 {
 		base = vPut(g, "b", "o", []byte("base"))
@@ -50,6 +53,15 @@ func H_C07_writers() {
 				codes[i] = c07Patch(g, cloudstorage.Conditions{MetagenerationMatch: base.Metageneration}, "text/"+string(content))
 			case 3: // unconditional patches: no update is lost
 				codes[i] = c07Patch(g, emptyConds, "text/"+string(content))
+			case 6: // an upload and a delete, both conditioned on the same generation
+				if i == 0 {
+					_, errs[i] = g.finishUpload(vCtx(), dontNeedUrls, &storage.Object{Bucket: "b", Name: "o"}, content, "b",
+						cloudstorage.Conditions{GenerationMatch: base.Generation})
+				} else {
+					w := vNewRecorder()
+					g.handleGcsDelete(vCtx(), w, "b", "o", cloudstorage.Conditions{GenerationMatch: base.Generation})
+					codes[i] = w.code
+				}
 			case 5: // an upload and a compose, both conditioned on non-existence of the destination
 				if i == 0 {
 					_, errs[i] = g.finishUpload(vCtx(), dontNeedUrls, &storage.Object{Bucket: "b", Name: "o"}, content, "b",
@@ -112,6 +124,15 @@ func H_C07_writers() {
 			vAssert(codes[i] == http.StatusOK, "patch-ok")
 		}
 		vAssert(st.metagen == base.Metageneration+int64(n), "no-lost-update: metageneration raised once per patch")
+	case 6:
+		wins := 0
+		if errs[0] == nil {
+			wins++
+		}
+		if codes[1] == http.StatusNoContent {
+			wins++
+		}
+		vAssert(wins == 1, "upload-and-delete-on-one-generation: exactly one succeeds")
 	case 5:
 		wins := 0
 		if errs[0] == nil {
